@@ -35,6 +35,8 @@ _queries = None
 EXTRA = ['CC[n+]1ccn(C)c1', 'C[n+]1ccn(Cc2ccccc2)c1', 'Cc1cc[nH+][nH]1', 'CCN1C=C[N+](C)=C1', 'CC(C)[n+]1ccn(C)c1', 'Cc1[nH]cc[nH+]1',
          'Cn1cc[n+](c1)C[C@H](N)C(O)=O', 'C[n+]1ccn(c1)C[C@H](N)C(O)=O', 'CCn1cc[n+](C)c1C', 'Cc1ccc2[nH]c[nH+]c2c1', 'CN(C)C(C)=[N+](C)CC',
          'C[C@H](N)Cn1cc[n+](CC)c1', 'F[C@H]1C[C@@H](F)C1', 'C[C@H]1CC[C@@H](C)CC1', 'C[C@H]1CC[C@H](C)CC1', 'O[C@H]1[C@H](O)[C@@H](O)[C@H](O)[C@@H](O)[C@@H]1O',
+         # metallacycles drawn with covalent metal-donor ring bonds (a standardisation rule rewrites them as coordinate bonds)
+         'CN1(C)CCN(C)(C)[Cu]1', 'C1=CC=CC2=C1[Pd]N(C)(C)C2', 'CP1(C)CCP(C)(C)[Ni]1(Cl)Cl', '[Fe]1234C5C1C2C3C45', 'CN(C)(C)[Cu]Cl', 'C1CN2CCN1[Zn]2',
          # stereo elements that exist only through an isotope label
          'C[C@H](O)[13CH3]', 'C/C=C(/C)[13CH3]', 'C[C@H]([18OH])O', 'C[C@@H]([13CH3])N', '[2H][C@H](C)O', 'C[C@H]([2H])c1ccccc1', 'CC(C)=C/[13CH]=C/C',
          '[13CH3][C@H](C)C(=O)O.C[C@H](N)C(=O)O', 'C[C@@]([13CH3])([14CH3])O',
@@ -111,6 +113,20 @@ def transforms(m, warm=False):
             out[name] = (str(c), [(n, T.atom_rec(a)) for n, a in c.atoms()], [(n, k, b.order) for n, k, b in c.bonds()])
         except Exception as e:
             out[name] = ('raises', type(e).__name__)
+            continue
+        if warm:
+            # the object the operation ran on and a copy of it are one molecule: ring sets, ring marks and strings agree
+            try:
+                cc = c.copy()
+                G._fix_slots(cc)
+                mine = (str(c), sorted(map(sorted, c.sssr)), sorted((n, a.in_ring, tuple(sorted(a.ring_sizes))) for n, a in c.atoms()),
+                        sorted((min(n, k), max(n, k), bool(b.in_ring)) for n, k, b in c.bonds()), sorted(map(sorted, c.connected_components)))
+                cc.calc_labels()
+                its = (str(cc), sorted(map(sorted, cc.sssr)), sorted((n, a.in_ring, tuple(sorted(a.ring_sizes))) for n, a in cc.atoms()),
+                       sorted((min(n, k), max(n, k), bool(b.in_ring)) for n, k, b in cc.bonds()), sorted(map(sorted, cc.connected_components)))
+                out[name + ':result-equals-its-copy'] = mine == its or [i for i, (x, y) in enumerate(zip(mine, its)) if x != y]
+            except Exception as e:
+                out[name + ':result-equals-its-copy'] = ('raises', type(e).__name__)
     try:
         out['tautomers'] = [str(t) for _, t in zip(range(12), m.enumerate_tautomers(limit=40))]
     except Exception as e:
@@ -121,6 +137,38 @@ def transforms(m, warm=False):
     except Exception as e:
         out['pack'] = ('raises', type(e).__name__)
     return out
+
+
+def _ring_gap_mol(m):
+    from rt.oracles import mcb as MCB
+    adj = {n: {k for k, b in ms.items() if b.order != 8} for n, ms in m._bonds.items()}
+    return MCB.theta_long_bridges(adj) or MCB.dense_cage(adj) or MCB.theta_subgraph_long_bridges(adj)
+
+
+def reactions(ctx, s, m, rng):
+    """the same questions for a reaction built around the molecule: string / hash read first, an in-place operation, then the
+    reaction, its copy and a re-read of its text describe one reaction"""
+    from chython import ReactionContainer
+    if len(m) > 40 or rng.random() > .25:
+        return
+    others = [smiles(x) for x in rng.sample(['CCO', 'c1ccccc1', 'O', '[Na+].[Cl-]', 'CC(=O)O', 'c1ccncc1', 'N', 'C=C'], 3)]
+    for op in ('kekule', 'thiele', 'canonicalize', 'standardize', 'clean_isotopes', 'implicify_hydrogens', 'neutralize', 'clean_stereo'):
+        try:
+            roles = [[m.copy()], [others[0].copy()], [others[1].copy(), others[2].copy()]]
+            rng.shuffle(roles)
+            rx = ReactionContainer(roles[0], roles[2], roles[1])
+            str(rx), hash(rx)
+            getattr(rx, op)()
+            a, b = str(rx), str(rx.copy())
+        except Exception as e:
+            ctx.count('reactions.operation-refused')
+            continue
+        ctx.count('reactions.compared')
+        ctx.count('within-process.comparisons')
+        if a != b:
+            ctx.violation('differs-within-process/reaction-vs-its-copy/%s' % op, '%s: after %s the reaction prints %s, its copy %s' % (s, op, a, b),
+                          {'smiles': s})
+            return
 
 
 def worker(ctx):
@@ -183,9 +231,17 @@ def worker(ctx):
             ctx.evaluations += 1
             if tr[name] != tr2[name]:
                 ctx.violation('differs-within-process/repeated-call/%s' % name, '%s: %s' % (s, name), w)
-            elif tr[name] != tr3[name]:
+            elif name in tr3 and tr[name] != tr3[name]:
                 ctx.violation('differs-within-process/cached-views-read-before/%s' % name, '%s: %s gives %s on a fresh copy, %s after its '
                               'derived views were read' % (s, name, str(tr[name][0])[:80], str(tr3[name][0])[:80]), w)
+        for name, v in tr3.items():
+            if name.endswith(':result-equals-its-copy'):
+                ctx.count('within-process.comparisons')
+                if v is not True and not (isinstance(v, list) and v == [1] and _ring_gap_mol(m)):
+                    ctx.violation('differs-within-process/result-vs-its-copy/%s' % name.split(':')[0],
+                                  '%s: after %s the object and its copy differ in %s (0 string, 1 ring set, 2 atom ring marks, 3 bond ring marks, '
+                                  '4 components)' % (s, name.split(':')[0], v), w)
+        reactions(ctx, s, m, rng)
         row = {k: dg(v) for k, v in first.items()}
         row.update({k: dg(v) for k, v in tr.items()})
         row['_str'] = first['str']
